@@ -57,13 +57,15 @@ pub fn scenario(ctx: &Ctx, idx: u64) -> Report {
 
         // ---- dump the table over the wire: one probe per possible bucket (+ the local id).
         // The node keeps refreshing and learning while it is probed, so the registry is read
-        // before and after the sweep: nodes live in both snapshots must all be returned, and
-        // nothing may be returned that is live in neither.
+        // before and after the sweep: and after every probe: nodes live in all snapshots must all be returned,
+        // and nothing may be returned that was live in none.
         let Some((before, _)) = snapshot(&bed.id) else {
             report.inconclusive.push("hook registry has no table for the node".into());
             return report;
         };
         let mut wire_dump: BTreeSet<Handle> = BTreeSet::new();
+        let mut stable: BTreeSet<Handle> = before.keys().copied().collect();
+        let mut either: BTreeSet<Handle> = before.keys().copied().collect();
         let fam_want = if bed.v6 { Want::N6 } else { Want::N4 };
         for bit in 0..=160usize {
             let target = if bit == 160 { bed.id } else { flip_bit(&bed.id, bit) };
@@ -81,14 +83,19 @@ pub fn scenario(ctx: &Ctx, idx: u64) -> Report {
                     wire_dump.extend(r.nodes.iter().chain(r.nodes6.iter()).copied());
                 }
             }
+            // the table is also read after every probe: a node may be live only for part of the sweep
+            if let Some((now, _)) = snapshot(&bed.id) {
+                stable.retain(|h| now.contains_key(h));
+                either.extend(now.keys().copied());
+            }
         }
         let Some((after, buckets)) = snapshot(&bed.id) else {
             report.inconclusive.push("hook registry has no table for the node".into());
             return report;
         };
         report.count("wire_tables_dumped");
-        let stable: BTreeSet<Handle> = before.keys().filter(|h| after.contains_key(*h)).copied().collect();
-        let either: BTreeSet<Handle> = before.keys().chain(after.keys()).copied().collect();
+        stable.retain(|h| after.contains_key(h));
+        either.extend(after.keys().copied());
         // every bucket holds at most 8 nodes and one probe is aimed at each bucket, so the union of
         // the answers must cover the whole live table
         let missing: Vec<String> = stable.difference(&wire_dump).map(|h| hex(&h.0[..6])).take(5).collect();
